@@ -1,6 +1,10 @@
 package rules
 
-import "xkvverif/internal/core"
+import (
+	"strings"
+
+	"xkvverif/internal/core"
+)
 
 type propFn = func(*core.Prog, *core.Report)
 
@@ -16,25 +20,57 @@ func with(base propFn, extra ...propFn) propFn {
 // Registry maps a property id to the function that adds its obligations to the report.
 var Registry = map[string]func(*core.Prog, *core.Report){
 	"C01": with(C01, frameGroup, batchGroup),
-	"C02": with(C02, frameGroup, batchGroup, mergeGroup),
+	"C02": with(C02, frameGroup, batchGroup, mergeGroup, cf2RecoveryIgnoresLimit),
 	"C03": with(C03, frameGroup, batchGroup, mergeGroup),
-	"C04": with(C04, batchGroup, frameGroup),
+	"C04": with(C04, batchGroup, frameGroup, ps3Rotate),
 	"C05": with(C05, batchGroup),
 	"C06": with(C06, mergeGroup),
-	"C07": with(C07, mergeGroup),
+	"C07": with(C07, mergeGroup, mergeFlagRules),
 	"C08": with(C08, func(p *core.Prog, rep *core.Report) {
 		newVF(p, rep).vf2(nil)
-	}),
-	"C09": with(C09, pool2SingleRelease, bt1PutType),
+	}, pool2SingleRelease, cd7LogicalSize),
+	"C09": with(C09, pool2SingleRelease, bt1PutType, lk13BackendState),
 	"C10": C10,
 	"C11": with(C11, frameGroup),
 	"C12": with(C12, frameGroup),
 	"C13": with(C13, cfg1OptionsImmutable),
-	"C14": with(C14, cfg1OptionsImmutable),
+	"C14": with(C14, cfg1OptionsImmutable, mg3Only, cf2RecoveryIgnoresLimit),
 	"C15": with(C15, pool2SingleRelease, rt2Decoded),
 	"C16": C16,
 	"C17": with(C17, bt3FlushLoopComplete),
 	"C18": with(C18, mergeGroup),
 	"C19": with(C19, batchGroup),
-	"C20": C20,
+	"C20": with(C20, ps5MergeOnly, lk13BackendState),
+}
+
+// mg3Only: Merge's liveness test compares the complete position (C14: the file-size limit decides how many files a
+// key's versions are spread over; a test that ignores the file id is right with one file and wrong with many).
+func mg3Only(p *core.Prog, rep *core.Report) {
+	m := newMergeCtx(p, rep)
+	m.mg3Liveness()
+}
+
+// ps5MergeOnly: Merge leaves the originals alone until adoption (C20: Backup copies the data directory only; originals
+// unlinked by Merge before the next restart are missing from every backup taken in between).
+func ps5MergeOnly(p *core.Prog, rep *core.Report) {
+	m := newMergeCtx(p, rep)
+	m.ps5MergeOrder()
+}
+
+// mergeFlagRules: at most one Merge works on the scratch directory (C07: a second Merge running beside the first wipes
+// its files while the first still writes its finished marker - the marker then vouches for a partial output).
+func mergeFlagRules(p *core.Prog, rep *core.Report) {
+	full := core.NewReport("C09")
+	runLockRules(p, full, false)
+	rep.Rule("LK4", full.Rules["LK4"])
+	n := 0
+	for _, o := range full.Obls {
+		if o.Rule == "LK4" && strings.Contains(o.Construct, "merge-flag") {
+			rep.Add(*o)
+			n++
+		}
+	}
+	if n == 0 {
+		rep.Unk("VAC", "LK4", "merge-flag obligations expected", "", "none found")
+	}
 }
